@@ -2,7 +2,7 @@ CONFIG = dict(
     id="C01",
     engine="bubble-actor",
     technique="Lean 4 invariant proofs over all op lists of a small-step model of doRequestEx/handleResponse/checkExpired, the node-level app.Request/Notify no-route branch, ResponseEx's reply decision "
-              "and of the actor's restarts (live Service object + orphaned ones, Model/ServiceLife.lean) "
+              "and of the actor's restarts (live Service object + orphaned ones, Model/ServiceLife.lean) and of a stopped actor (a history without response ops) "
               "+ differential correspondence with the real actorex/service.Service in a testing/synctest bubble (virtual clock) "
               "+ the exactly-once predicate evaluated on the implementation's own callback log / pending table",
     level_text="Machine-checked proof in Lean 4 that in the model of the service request core every issue instance's callback is invoked at most once, "
@@ -20,12 +20,14 @@ CONFIG = dict(
                "Restarts of the actor (a panic on the service goroutine outside an expiry scan: a callback under handleResponse, handler code) are a model of their own on top (Life = live object + orphans, LOp.crash): "
                "proved for all histories with any number of crashes: every incarnation, live or orphaned, is a reachable state of the one-object model, so all theorems above hold per incarnation (every_incarnation_is_a_run, cb_at_most_once_across_restarts); "
                "a restart leaves a fresh object (empty table, allocator 0, no timer) and orphans the old one unchanged and at rest with its timer armed (restart_orphans_the_table); responses reach the live object only and an orphaned request can only time out "
-               "(response_reaches_live_only, orphan_completes_only_by_timeout); and - the hazard, for every history, payload and wrap bound - the reply to an old request registered under id 1 completes the NEW object's first request instead (reply_crosses_restart). "
+               "(response_reaches_live_only, orphan_completes_only_by_timeout); the request an object held when it crashed is, at every later moment of every continuation with any number of further crashes, still registered in that very orphan or called back exactly once there (orphan_request_never_lost: a restart never forgets a request silently); "
+               "a STOPPED actor (Root.Stop / Poison: Service.Receive has no case for Stopping/Stopped, `case *actor.Stop` never matches, so onStop is unreachable and the run service and expiry timer live on) is a history without response ops: every new completion is then the timeout or the synchronous error of a later call (stopped_completes_only_by_timeout), and a request pending at the stop is still called back exactly once, with the timeout, under the scan-count fairness (stopped_request_times_out); and - the hazard, for every history, payload and wrap bound - the reply to an old request registered under id 1 completes the NEW object's first request instead (reply_crosses_restart). "
                "The model is tied to the Go code on every run by executing both on thousands of generated histories (1-40 outstanding requests, duplicates, late replies, "
-               "deadline +-1 ms, nil callbacks, re-entrant callbacks, unserialisable messages, replies of an unregistered type, unroutable node-level requests/notifies at top level and inside callbacks, id wrap; corpus op `restart`: a callback that really panics under handleResponse, the real supervisor restart, replies crossing it, both expiry timers) and the property predicate is evaluated on the implementation's observations.",
+               "deadline +-1 ms, nil callbacks, re-entrant callbacks, unserialisable messages, replies of an unregistered type, unroutable node-level requests/notifies (unknown service type and routes that are not serviceType.registry.method at all) at top level and inside callbacks, id wrap; "
+               "batches of 33-257 requests falling due in one expiry scan whose timeout callbacks issue new requests (op `burst`); op `restart` (corpus and generated): a callback that really panics under handleResponse, the real supervisor restart, replies crossing it, both expiry timers - every request outstanding across the restart must still be completed once; op `stop`: the real actor is stopped in the middle of a case, replies become dead letters, what is pending must still time out, zombie callbacks keep issuing) and the property predicate is evaluated on the implementation's observations.",
     level_note="Trusted: Lean kernel; the harness/driver line protocol; proto.actor local delivery (FIFO, once); testing/synctest's virtual clock; timer.Mgr's re-arm-after-callback period "
                "(modelled in the driver: ticks at arm time + k*1000 ms). Assumed, not proved here: callbacks run on the service goroutine (C04; observed per callback by goroutine id), "
-               "that the 1 s timer does fire while armed (C14: the liveness theorems take the scans as explicit ops of the history), callbacks invoked by handleResponse do not panic - what happens when one does (supervisor restart) is now modelled (Model/ServiceLife.lean), proved about per incarnation and tied by the corpus op `restart` (4 parameter sets on every run, not randomly generated); the exactly-once statement itself is per incarnation and FAILS across a restart (reply_crosses_restart). "
+               "that the 1 s timer does fire while armed (C14: the liveness theorems take the scans as explicit ops of the history), callbacks invoked by handleResponse do not panic - what happens when one does (supervisor restart) is now modelled (Model/ServiceLife.lean), proved about per incarnation and tied by the op `restart` (4 corpus parameter sets on every run and ~1 generated case in 40: a 1-6, b 0-6, any off); the exactly-once statement itself is per incarnation and FAILS across a restart (reply_crosses_restart). "
                "The theorems are about the model; the differential run ties it to the code on sampled histories only.",
     lean_targets=["Cell2v.Props.C01", "modeld_c01"],
     driver="modeld_c01",
@@ -41,7 +43,8 @@ CONFIG = dict(
                        "d22_witness", "d22_fixed", "restart_id_reuse_witness",
                        "every_incarnation_is_a_run", "cb_at_most_once_across_restarts", "restart_orphans_the_table",
                        "scan_panic_does_not_restart", "response_reaches_live_only", "orphan_completes_only_by_timeout",
-                       "reply_crosses_restart"],
+                       "reply_crosses_restart", "orphan_request_never_lost",
+                       "stopped_completes_only_by_timeout", "stopped_request_times_out"],
     harness_pkg="./c01",
     mode="diff",
     reset_prefix="reset",
@@ -57,22 +60,26 @@ CONFIG = dict(
          "inside one synctest bubble: cases of 10-80 ops with 1-40 outstanding requests; requests with callback / nil callback / unserialisable message, notifies, callback scripts that issue "
          "further requests and notifies (nesting <= 3, including synchronous serialisation-failure callbacks) and that panic when run as a timeout completion "
          "(alone or with several entries due in the same scan, callback and nil-callback ones mixed); node-level app.Request (with / without callback) and app.Notify whose route finds no target, "
-         "at top level and as script items inside reply / timeout / serialisation-failure / no-route callbacks (X(..), x, y; instances of the model's `noroute` op); replies ok / empty / error / undecodable body / unregistered type name (D22) to pending, completed (late, duplicate), "
+         "at top level and as script items inside reply / timeout / serialisation-failure / no-route callbacks (X(..), x, y; instances of the model's `noroute` op); the route string of such a call alternates between a well-formed route to an unknown service type and malformed ones (two parts, four parts, one part, empty, empty service type; `noroute cb= route=<str>` at top level, noRoutes[tag mod 9] inside scripts): every one must be completed once with ErrorNoService; "
+         "a `massexpiry` stream (op `burst n=<k> s=<act>`: k issues by one piece of handler code): 33-257 requests (around 64 / 128 / 256) due in the SAME expiry scan, most of whose timeout callbacks retry (issue requests / notifies / unroutable calls re-entrantly), with an older survivor, replies to the retries and a second period in which the rest of them expire; replies ok / empty / error / undecodable body / unregistered type name (D22) to pending, completed (late, duplicate), "
          "notify and unknown instances; raw responses for id 0, small, MaxReqId, MaxInt32 and pending ids; clock advances aimed at deadline-1000..deadline+2000 including deadline-1, deadline, "
          "deadline+1 and the scan instants, long advances; allocator preset near MaxReqId (wrap) and at random values; requests and notifies to a peer that is a real service with an apimapper API dispatcher whose handler keeps the completion callback and completes it later, out of order, with other requests dispatched in between; clock advances during which the service goroutine is parked in a handler while 999-1300 zero-delay timers overflow timer.Mgr's queue and an expiry tick falls into the window (delivered late, the period restarts there; the run-service loop's 2 ms busy-frame throttle is part of the op), followed by a request to the silent peer and +31 s; app.Request / app.Notify routed through the real cluster directory (UpdateClusterTopology + address resolver) to a peer that answers at once and to one that holds requests, also unroutable and unserialisable notifies; ok replies with the all-default value 0 and replies of the field-less type EmptyArg (zero bytes on the wire, must arrive non-nil and of their type), error replies with int32 codes from the whole range. "
          "A `crowd` stream spawns 3-24 services from one props (one scheDisp / run-service goroutine), parks that goroutine inside a posted closure, lets one foreign goroutine per service "
          "deliver a reply (more than the 9-slot dispatcher queue holds), releases it and checks that every reply callback, timer callback and posted closure ran on the one goroutine, never two at once. "
          "The order in which one scan runs several timeout callbacks (Go map order), and which nil-callback entries it had already removed before each of them, "
          "is recorded and fed to the model as its choice. "
-         "Corpus op `restart a b w off` (first op of a case): a requests held by the peer, one whose completion callback panics under handleResponse, +off ms, its reply (mailbox escalation, supervisor restart, producer builds a fresh Service), b requests by the new object, the reply to the OLD request 0, +31 s (both objects' expiry timers): compared sub-step by sub-step with Model/ServiceLife.lean. "
+         "Op `stop` (about 1 case in 12, at a random step; corpus stop.txt): ActorSystem.Root.Stop on the requester - afterwards deliver / inject / the echo peer's answer are dead letters (model: no response op; spec: no response is processed, only the timeout may complete), everything else goes on (requests issued by zombie callbacks and posted code, expiry scans). "
+         "No-route items also call app.QuerySession / app.Kick for an unknown front service (pseudo-routes @query / @kick). "
+         "Op `restart a b w off` (first op of a case; corpus and generator): a requests held by the peer, one whose completion callback panics under handleResponse, +off ms, its reply (mailbox escalation, supervisor restart, producer builds a fresh Service), b requests by the new object, the reply to the OLD request 0, +31 s (both objects' expiry timers): compared sub-step by sub-step with Model/ServiceLife.lean; the spec monitor demands that no callback ran twice and that every request issued in the op except the panicking one has been completed exactly once when it ends (the orphaned object's requests by its own expiry timer). "
          "A case is non-trivial when something was issued, called back or sent; distinct = distinct (op, observation) pairs",
     trusted_base=[
         "Lean 4.33.0 kernel; axioms of every property theorem audited on each run (allowed: propext, Classical.choice, Quot.sound)",
         "hand-written model lean/Cell2v/Model/Service.lean tied to the Go code by the differential run of this check (harness/c01 + modeld_c01)",
         "the answering peers are real services: ResponseEx's decision is evaluated by the model function respondsTo for every `deliver`",
-        "hand-written restart layer lean/Cell2v/Model/ServiceLife.lean (what the supervisor + factory producer do on a panic: new Service object under the same pid, old object's timer keeps running) tied by the composite harness op `restart` (fixed scenario family a/b/w/off, corpus only); that timer.Mgr recovers panics inside a scan while the mailbox escalates all others is taken from proto.actor / utils/timer and observed by that op and by the P scripts",
+        "hand-written restart layer lean/Cell2v/Model/ServiceLife.lean (what the supervisor + factory producer do on a panic: new Service object under the same pid, old object's timer keeps running) tied by the composite harness op `restart` (scenario family a/b/w/off, corpus + generated); that timer.Mgr recovers panics inside a scan while the mailbox escalates all others is taken from proto.actor / utils/timer and observed by that op and by the P scripts",
         "driver-level model of the expiry timer's phase (armed at T: scans at T+1000k; a tick that falls into a window in which the service goroutine is busy is delivered at its end, +2 ms loop throttle) and of callback scripts (lean/Cell2v/Driver/C01.lean)",
         "go1.26 testing/synctest virtual clock; proto.actor local message delivery; harness canonicalisation (errors -> ok/rerr/err/timeout/noservice, pending ids sorted; status `restarted` when the supervisor replaced the requester object)",
+        "proto.actor's stop protocol as observed by the op `stop` (Stopping/Stopped to the actor, pid removed from the registry, later messages are dead letters)",
     ],
     assumptions=[
         "the id guard: an id is not re-allocated while an entry stored under it is pending (proved from: fewer than M-1 allocations during any entry's life) - per incarnation of the service",
@@ -80,10 +87,10 @@ CONFIG = dict(
         "(empty table, request ids from 1 again, same run-service goroutine): the old incarnation's pending requests are not completed by their replies (the orphaned object's 1 s timer still times them out), "
         "and a reply addressed to an old id completes an UNRELATED request of the new incarnation that was given the same id - 'the response that answers that very request' fails with no wrap of 2^31 ids "
         "(reproduced on the Go code on every run: harness op `restart` in corpus/C01/restart.txt, and opt-in test TestRestartWitness; model: Model/ServiceLife.lean, theorems reply_crosses_restart (all histories) and restart_id_reuse_witness). "
-        "The restart is modelled and differentially tied, but it stays an ASSUMPTION of the exactly-once theorems, which are per incarnation; kept out of the random generator (corpus only). "
+        "The restart is modelled and differentially tied, but it stays an ASSUMPTION of the exactly-once theorems, which are per incarnation; the `restart` op is generated as a whole case only (no restart in the middle of a random history). "
         "Panics of timeout callbacks (recovered by timer.Mgr) ARE modelled (Op.panic), generated and proved about; a reply that cannot be decoded no longer crashes the requester (D22, repaired, modelled, generated)",
         "all calls into the service happen on its own goroutine (C04; observed per callback by goroutine id); the 1 s timer keeps firing while armed (C14) - the liveness theorems state this as scans present in the op list",
-        "the requesting service is not stopped while requests are pending (actor.Stop stops the run service: pending callbacks are dropped, no op for it)",
-        "a completion callback run synchronously by the issuing call (serialisation failure, no route) that panics at top level is outside the model (the generator's scripts panic only under a timeout completion)",
+        "stopping the requester is no longer an assumption: Root.Stop / Poison do NOT reach onStop (`case *actor.Stop` in Service.Receive never matches - Stop is a system message, user code sees Stopping / Stopped), the run service is never stopped, the object lives on and its pending requests are completed by the timeout (modelled: history without responses; tied: op `stop`; proved: stopped_completes_only_by_timeout, stopped_request_times_out). Assumed instead: nobody sends a literal &actor.Stop{} as a USER message (that alone would run onStop -> runService.Stop(): pending callbacks dropped, no op for it)",
+        "a completion callback run synchronously by the issuing call (serialisation failure, no route) that panics at top level is a `crash` of the restart layer (LOp.crash with nest > 0, covered by its theorems) but not driven on the Go code (the generator's scripts panic only under a timeout completion; the `restart` op panics under handleResponse)",
     ],
 )
